@@ -52,7 +52,7 @@ from simkit.rng import seed_globals, unit  # noqa: E402
 from simkit.world import InvalidScenario, Monitor, Violation, result, run_sim  # noqa: E402
 
 PROPERTY = "C18"
-RUNS = {"quick": 4000, "thorough": 1_000_000}
+RUNS = {"quick": 4000, "thorough": 3_000_000}
 WALL = {"quick": 50, "thorough": 1500}
 BATCH = {"quick": 100, "thorough": 400}
 RULE = (
